@@ -915,6 +915,7 @@ func runC03(c *mc.Ctx) {
 	}
 	runC03Foreign(c)
 	runC03Constants(c)
+	runC03Case(c)
 }
 
 func pairFromIndex(pi, L int) (int, int) {
